@@ -38,6 +38,10 @@ pub const FP_POOL_WORKER_LOOP: u32 = 7;
 /// refined_tcp_stream.rs: a socket read returned (a: peer port or 0, b: bytes read, usize::MAX on error)
 pub const FP_SOCK_READ: u32 = 8;
 
+/// task_pool.rs: observation only, called under the pool mutex, the hook must not block
+/// (a: 0 = new thread started for the task, 1 = task queued for an idle worker; b: queue length)
+pub const FP_POOL_DISPATCH: u32 = 9;
+
 /// Installs (or removes) the failpoint hook.
 pub fn set_hook(hook: Option<Hook>) {
     let mut slot = HOOK.write().unwrap();
